@@ -70,12 +70,12 @@ example : IsStratification [⟨3, 2, true⟩, ⟨2, 2, false⟩] (fun n => if n 
 
 /-! ### where the check is called: the persistent catalog -/
 
-/-- Invariant: over every history of registrations (through the protocol or the storage-engine API),
-    drops, prefix drops, clears, clause removals, session traffic, queries and restarts — everything
-    except the unchecked `replace_rule` — the stored rule set never recurses through negation. -/
-theorem C34_persistent (ops : List Op) (h : ∀ op, op ∈ ops → op.isReplace = false) :
+/-- Invariant: over every history — registrations through the protocol or the storage-engine API,
+    clause replacement, drops, prefix drops, clears, clause removals, session traffic, queries, restarts —
+    the stored rule set never recurses through negation. -/
+theorem C34_persistent (ops : List Op) :
     ¬ NegCycle (graphOf (catRules (runSt {} ops).cat)) := by
-  have hc : CatOK (runSt {} ops).cat := runSt_preserves h (by unfold CatOK; decide)
+  have hc : CatOK (runSt {} ops).cat := runSt_preserves (by unfold CatOK; decide)
   intro hn
   have := rejects_iff.mpr hn
   unfold CatOK stratRejects at hc
@@ -86,14 +86,10 @@ def exA : Rule := ⟨⟨2, [.var 0]⟩, [.pos ⟨0, [.var 0]⟩, .neg ⟨3, [.va
 def exB : Rule := ⟨⟨3, [.var 0]⟩, [.pos ⟨0, [.var 0]⟩, .neg ⟨2, [.var 0]⟩]⟩
 def exC : Rule := ⟨⟨3, [.var 0]⟩, [.pos ⟨0, [.var 0]⟩]⟩
 
-/-- a non-trivial history meeting the hypothesis: the closing rule is rejected, a drop makes room for it -/
-example : (run {} [.persist exA, .persist exB, .drop 2, .registerApi exB, .persist exA]).2
-    = [.ok, .err .unstrat, .ok, .ok, .err .unstrat] := by decide
-
-/-- `replace_rule` is the one catalog operation that can break the invariant. -/
-theorem replace_breaks_invariant :
-    ∃ ops : List Op, NegCycle (graphOf (catRules (runSt {} ops).cat)) :=
-  ⟨[.persist exA, .persist exC, .replace 3 0 exB], rejects_iff.mp (by decide)⟩
+/-- a non-trivial history: the closing rule is rejected however it arrives (registration or clause
+    replacement); a drop makes room for it -/
+example : (run {} [.persist exA, .persist exB, .persist exC, .replace 3 0 exB, .drop 2, .replace 3 0 exB, .persist exA]).2
+    = [.ok, .err .unstrat, .ok, .err .unstrat, .ok, .ok, .err .unstrat] := by decide
 
 /-- No false rejections: a clause that passes `validate_rule`, whose arity matches the stored clauses
     of its head, and that closes no negative cycle with the stored rules is registered. -/
@@ -123,49 +119,81 @@ example : validateRule exB = none ∧ ¬ NegCycle (graphOf (catRules [(3, [exC])
   revert this
   decide
 
-/-! ### where the check is not called -/
+/-! ### where the check is called: every query request -/
 
-/-- The engine's own gate is safety only: an unstratifiable safe program is handed to evaluation
-    (`recursion::stratify` falls back to `basic_stratify`). -/
-theorem engine_evaluates_unstratifiable :
+/-- The decision taken for a query over the rules in force (persistent ∪ session ∪ request-local):
+    rejected as unstratified ⇔ a negative edge lies on a cycle of the union; evaluated ⇔ no such edge and
+    every rule safe. -/
+theorem query_rejected_iff_neg_cycle (rs : List Rule) :
+    runQuery rs = .err .unstrat ↔ NegCycle (graphOf rs) := by
+  unfold runQuery
+  constructor
+  · intro h
+    cases hr : stratRejects rs with
+    | true => exact rejects_iff.mp hr
+    | false =>
+      simp only [hr, Bool.false_eq_true, if_false] at h
+      split at h <;> cases h
+  · intro h
+    have : stratRejects rs = true := rejects_iff.mpr h
+    simp [this]
+
+theorem query_evaluated_iff (rs : List Rule) :
+    runQuery rs = .eval ↔ (¬ NegCycle (graphOf rs) ∧ engineAccepts rs = true) := by
+  unfold runQuery
+  cases hr : stratRejects rs with
+  | true =>
+    have hn : NegCycle (graphOf rs) := rejects_iff.mp hr
+    simp [hn]
+  | false =>
+    have hn : ¬ NegCycle (graphOf rs) := fun h => by
+      have := rejects_iff.mpr h
+      unfold stratRejects at hr
+      rw [hr] at this; cases this
+    cases he : engineAccepts rs <;> simp [hn]
+
+/-- The engine's own gate is still safety only (`recursion::stratify` falls back to `basic_stratify`); the
+    property rests on the handler's check above, not on the engine. -/
+theorem engine_gate_is_safety_only :
     ∃ rs : List Rule, engineAccepts rs = true ∧ NegCycle (graphOf rs) :=
   ⟨[exA, exB], by decide, rejects_iff.mp (by decide)⟩
 
-/-- The property at full strength: in every history, whatever query is evaluated, the rules in force
-    for it (persistent ∪ session ∪ request-local) do not recurse through negation. -/
-def C34_statement : Prop := ∀ (pre : List Op) (op : Op), badEval (runSt {} pre) op = false
+/-- **C34.** In every history of requests — persistent registration by either path, clause replacement,
+    drops, clears, removals, session rules, session clears, restarts, queries with or without session and
+    with request-local rules — whatever query is evaluated, the rules in force for it (persistent ∪
+    session ∪ request-local) do not recurse through negation. -/
+theorem C34 (pre : List Op) (op : Op) : badEval (runSt {} pre) op = false := by
+  cases op <;> simp only [badEval, inForce]
+  case querySess n =>
+    cases h : (step (runSt {} pre) (.querySess n)).2 == Out.eval with
+    | false => rfl
+    | true =>
+      have he : runQuery (catRules (runSt {} pre).cat ++ (runSt {} pre).sess) = .eval := by
+        simpa [step] using h
+      simp [runQuery_eval he]
+  case queryPlain n =>
+    cases h : (step (runSt {} pre) (.queryPlain n)).2 == Out.eval with
+    | false => rfl
+    | true =>
+      have he : runQuery (catRules (runSt {} pre).cat) = .eval := by simpa [step] using h
+      simp [runQuery_eval he]
+  case queryLocal n rs =>
+    cases h : (step (runSt {} pre) (.queryLocal n rs)).2 == Out.eval with
+    | false => rfl
+    | true =>
+      simp only [step] at h
+      cases hacc : acceptLocals [] rs with
+      | error e => simp [hacc] at h
+      | ok acc =>
+        have hrs : acc = rs := by simpa using acceptLocals_ok rs [] acc hacc
+        subst hrs
+        have he : runQuery (catRules (runSt {} pre).cat ++ acc) = .eval := by simpa [hacc] using h
+        simp [runQuery_eval he]
 
-/-- Refuted by the faithful model: persistent `p2(X) <- p0(X), !p3(X)` plus the session rule
-    `p3(X) <- p0(X), !p2(X)` — each passes `validate_rule`, nobody checks their union — is evaluated. -/
-theorem C34_refuted : ¬ C34_statement := by
-  intro h
-  have := h [.persist exA, .sessRule exB] (.querySess 2)
-  revert this
-  decide
-
-/-- the same through request-local rules only, and through the unchecked `replace_rule` -/
-theorem C34_refuted_local : badEval (runSt {} []) (.queryLocal 2 [exA, exB]) = true := by decide
-theorem C34_refuted_replace :
-    badEval (runSt {} [.persist exA, .persist exC, .replace 3 0 exB, .restart]) (.queryPlain 2) = true := by decide
-
-/-- What does hold: as long as `replace_rule` is not used, every query that sees no session or
-    request-local rule (plain queries, session queries on a session without rules, programs without
-    local rules) is evaluated over a stratifiable rule set.  Excluded inputs: histories containing a
-    `replace` (`Op.isReplace`), and queries with `nonPersistent ≠ []`. -/
-theorem C34_partial (pre : List Op) (op : Op)
-    (hrep : ∀ o, o ∈ pre → o.isReplace = false)
-    (hloc : nonPersistent (runSt {} pre) op = []) :
-    badEval (runSt {} pre) op = false := by
-  have hc : CatOK (runSt {} pre).cat := runSt_preserves hrep (by unfold CatOK; decide)
-  unfold CatOK at hc
-  cases op <;> simp only [badEval, inForce, nonPersistent] at hloc ⊢
-  · rw [hloc, List.append_nil, hc, Bool.and_false]
-  · rw [hc, Bool.and_false]
-  · rw [hloc, List.append_nil, hc, Bool.and_false]
-
-/-- hypotheses met non-trivially: session rules exist in the history, the query does not see them -/
-example : (∀ o, o ∈ [Op.persist exA, .sessRule exB, .sessClear] → o.isReplace = false)
-    ∧ nonPersistent (runSt {} [.persist exA, .sessRule exB, .sessClear]) (.querySess 2) = []
+/-- the old counterexamples, now rejected: persistent + session rule, request-local pair, replaced clause -/
+example : (step (runSt {} [.persist exA, .sessRule exB]) (.querySess 2)).2 = .err .unstrat
+    ∧ (step (runSt {} []) (.queryLocal 2 [exA, exB])).2 = .err .unstrat
+    ∧ (run {} [.persist exA, .persist exC, .replace 3 0 exB]).2 = [.ok, .ok, .err .unstrat]
     ∧ (step (runSt {} [.persist exA, .sessRule exB, .sessClear]) (.querySess 2)).2 = .eval := by decide
 
 end ILV.Props.C34
